@@ -27,7 +27,7 @@ theorem amGet_of_mem_nodup {β : Type} : ∀ (m : List (Str × β)) (k : Str) (v
       exact amGet_of_mem_nodup r k v hn.2 h
 
 theorem ginv_empty (W : Colls) (hfresh : ∀ C, W.mem C → C.uid ≠ 0) : GInv W [] Agg.empty := by
-  refine ⟨⟨⟨⟨?_, ?_, ?_⟩, cinv_nil W _ hfresh, rfl⟩, ?_, ?_, ?_, ?_, ?_, ?_⟩, ninv_empty⟩
+  refine ⟨⟨⟨⟨?_, ?_, ?_⟩, cinv_nil W _ hfresh, rfl⟩, ?_, ?_, ?_, ?_, ?_, ?_, ?_⟩, ninv_empty⟩
   · intro C _
     refine ⟨?_, ?_⟩
     · intro d v' h; cases h
@@ -41,6 +41,7 @@ theorem ginv_empty (W : Colls) (hfresh : ∀ C, W.mem C → C.uid ≠ 0) : GInv 
   · intro g _ h; cases h
   · intro p h; cases h
   · intro p h; cases h
+  · rintro n F ⟨e, ti, h, _⟩; cases h
   · rintro n F ⟨e, ti, h, _⟩; cases h
 
 /-- **one `aggregate` call keeps the invariant** -/
